@@ -47,11 +47,23 @@ type ServerVariable struct {
 func NewServerVariable(sv *openapi3.ServerVariable) ServerVariable {
 	enums := make([]string, 0, len(sv.Enum))
 	for _, e := range sv.Enum {
-		enums = append(enums, e.(string))
+		enums = append(enums, scalarToString(e))
 	}
 	return ServerVariable{
 		Enum:        enums,
-		Default:     sv.Default.(string),
+		Default:     scalarToString(sv.Default),
 		Description: sv.Description,
 	}
+}
+
+// scalarToString renders a YAML scalar (server variable values are often
+// written unquoted, e.g. "default: 8443") as the string it stands for.
+func scalarToString(v interface{}) string {
+	switch s := v.(type) {
+	case nil:
+		return ""
+	case string:
+		return s
+	}
+	return fmt.Sprint(v)
 }
